@@ -10,7 +10,7 @@ from .. import proc, refsem
 from ..proc import Shape, S, BOOL, INT, REAL
 from .. import simpcheck as sc
 from ..absint import Interp, Explorer, Unsupported, AbsRaise, SymInt, eval_term, term_str
-from ..world import World
+from ..world import World, RealMgrWorld
 
 STRING = ("STRING",)
 BVW, BVV = ("BV", "W"), ("BV", "V")
@@ -68,10 +68,13 @@ def _pow_job(job):
 
     def one(ex):
         it = Interp(ex)
-        w = World().attach(it)
+        w = RealMgrWorld().attach(it)
         stc = w.new_walker("pysmt.type_checker.SimpleTypeChecker", w.env)
         node = w.app("Pow", w.symbol("t0", base), sc.build(w, exp, []))
-        return (w, node, it.call(it.getattr(stc, "get_type"), [node]))
+        try:
+            return (w, node, it.call(it.getattr(stc, "get_type"), [node]))
+        except AbsRaise:
+            return (w, node, None)
     paths = Explorer(max_paths=20).run(one)
     sorts = (base, exp[2])
     exp_sort = expected("POW", sorts, None)
@@ -81,7 +84,7 @@ def _pow_job(job):
         got = None
         if p.kind == "return":
             w, node, t = p.value
-            got = w.sort_of_tyobj(t) if t is not None else None
+            got = w.sort_of_tyobj(t) if t is not None else ("UNTYPABLE",)
         if exp_sort is None and got is not None:
             return [(ctor, op, sorts, "accepts-ill-typed", "Pow(%s, %s constant) is accepted with type %s; the application "
                      "is ill-sorted" % (_s(base), _s(exp[2]), _s(got)))]
@@ -93,21 +96,41 @@ def _pow_job(job):
 
 
 def _job(job):
+    res = _job0(job)
+    params = job[3]
+    if isinstance(params, tuple) and params and params[0] == "same":
+        tag = "%s[operands %d and %d are the same node]" % (job[0], params[1], params[2])
+        res = [(tag,) + tuple(r[1:]) for r in res]
+    return res
+
+
+def _job0(job):
     ctor, op, sorts, params = job
     if params == "pow":
         return _pow_job(job)
+    same = None
+    if isinstance(params, tuple) and params and params[0] == "same":
+        # the very same node at two operand positions (constructor shortcuts keyed on identity)
+        same = params[1:]
+        params = []
     names = ["t%d" % i for i in range(len(sorts))]
 
     def one(ex):
         it = Interp(ex)
-        w = World().attach(it)
+        w = RealMgrWorld().attach(it)
         stc = w.new_walker("pysmt.type_checker.SimpleTypeChecker", w.env)
         args = [w.symbol(n, sc._sort(w, s)) for n, s in zip(names, sorts)]
+        if same:
+            args[same[1]] = args[same[0]]
         kw = dict((p, w.var(p, "idx")) for p in params)
         node = w.app(ctor, *args, **kw)
         if not w.is_node(node):
             raise Unsupported("constructor returned %r" % (node,))
-        t = it.call(it.getattr(stc, "get_type"), [node])
+        # the construction went through: the node exists.  What a (fresh) checker says about it:
+        try:
+            t = it.call(it.getattr(stc, "get_type"), [node])
+        except AbsRaise:
+            t = None
         return (w, node, t)
     try:
         paths = Explorer(max_paths=200).run(one)
@@ -147,10 +170,10 @@ def _job(job):
                 else:
                     w, node, t = p.value
                     try:
-                        got = sc.sort_conc(w.sort_of_tyobj(t), asg) if t is not None else None
+                        got = sc.sort_conc(w.sort_of_tyobj(t), asg) if t is not None else ("UNTYPABLE",)
                     except Exception as e:
                         return [(ctor, op, sorts, "unsupported", "type object %r" % (t,))]
-                    how = "accepted" if got is not None else "get_type returned None"
+                    how = "accepted"
                     if t is not None and w.opname(node) != op and exp is None:
                         # the constructor rewrote the application into something else that is well typed
                         how = "rewritten to %s" % w.opname(node)
@@ -213,6 +236,10 @@ def jobs(tier):
                 combos = sorted(combos)
             for c in combos:
                 out.append((ctor, op, tuple(c), []))
+                for i in range(n):
+                    for j in range(i + 1, n):
+                        if c[i] == c[j] and (n <= 2 or tier == "thorough" or len(set(c)) <= 2):
+                            out.append((ctor, op, tuple(c), ("same", i, j)))
     for ctor, op, params in INDEXED:
         for s in SORTS:
             out.append((ctor, op, (s,), params))
@@ -225,7 +252,7 @@ def jobs(tier):
 def run(ctx):
     if not ctx.want("R3"):
         return
-    rs = ctx.rule("R3", "typing rule (constructor o type-checker handler) equals the signature table")
+    rs = ctx.rule("R3", "real manager: ill-sorted applications raise at construction, well-sorted ones get the sort of the signature table")
     js = jobs(ctx.tier)
     ctx.analysed["typing_rule_instances"] = len(js)
     for res in parallel_map(_job, js):
